@@ -53,6 +53,9 @@ let err_name e = match Zar.to_int e with 1 -> "NoDigits" | 2 -> "InvalidDigit" |
 
 let same b = "asis=" ^ if b then "same" else "diff"
 
+(* magnitudes up to this many bits (texts up to a third as many bytes) are also run through the word-level models *)
+let words_limit = try int_of_string (Sys.getenv "C07_WORDS_LIMIT") with _ -> 70000
+
 let judge op args got =
   let arg i = List.nth args i in
   match op with
@@ -62,17 +65,68 @@ let judge op args got =
       let v0 = z (arg 4) in
       let v = if ty = "u" then Zar.abs v0 else v0 in
       let spec = Model.fmt_spec k f v and asis = Model.fmt_asis w64 k f v in
+      (* the same entry point read through the regenerated trait tables (IoFmt3Model) *)
+      let asis_t = Model.fmt_tables_asis w64 (if ty = "u" then Zar.zero else Zar.one) k f v in
+      (* ... and over the word-level converters (IoBigModel: word loops, C01's pow/sqr/mul and C02's div_rem models);
+         the list-based kernels are slow, very long values are left to the value-level model *)
+      let words_ok t = if Zar.numbits v > words_limit then true else res_text (Model.fmt_words_asis w64 k f v) = t in
+      (* DigitWriter + SWAR (IoWriter.dw_text: 8-byte chunks, the DigitCase of the regenerated tables, the digits cut into
+         write calls of 19): the digit characters at the end of an unpadded text *)
+      let writer_ok o =
+        if f.Model.f_width <> None || Zar.numbits v > words_limit then true else begin
+          let case_id = (match k with
+            | Model.KInRadix r -> Some (r, Model.inradix_case r f.Model.f_alt)
+            | _ -> (match Model.trait_id k with
+                    | Some t -> (match Model.trait_lookup t (if ty = "u" then Zar.zero else Zar.one) Model.gen_fmt_traits with
+                                 | Some ((r, _), c) -> Some (r, c) | None -> None)
+                    | None -> None)) in
+          match case_id with
+          | None -> false
+          | Some (r, c) ->
+              let ds = Model.digits_asis w64 r (Zar.abs v) in
+              let chars = tok_of_bytes (Model.dw_text (zi 8) (Model.case_offset c) (zi 19) ds) in
+              let cl = String.length chars - 1 and ol = String.length o in
+              ol - cl >= 1 && String.sub o (ol - cl) cl = String.sub chars 1 cl
+        end in
       (match spec with
        | Model.Ok l ->
            let t = tok_of_bytes l in
-           let fid = same (match got with "ok" :: o :: _ -> res_text asis = "ok " ^ o | _ -> false) in
+           let fid = same (match got with "ok" :: o :: _ -> res_text asis = "ok " ^ o && res_text asis_t = "ok " ^ o && words_ok ("ok " ^ o) && writer_ok o | _ -> false) in
            let cls = "cls=" ^ arg 1 ^ (if Zar.sign v < 0 then "-neg" else "") in
            (match got with
             | [ "ok"; o; r; p ] when o = t && r = t && (p = "na" || p = t) -> pass ~extra:(fid ^ " " ^ cls) ()
             | [ "ok"; o; r; p ] when o = t && r = t -> fail ("spec-differs-from-primitive " ^ t)
             | [ "ok"; o; r; _ ] when o = r -> fail ("spec-differs-from-pad_integral " ^ t)
             | _ -> fail ("ok " ^ t))
-       | other -> expect ~extra:(same (res_text asis = String.concat " " got)) (res_text other) got)
+       | other -> expect ~extra:(same (res_text asis = String.concat " " got && res_text asis_t = String.concat " " got)) (res_text other) got)
+  | "dbg" ->
+      (* Debug: sign, all digits below 2^128, else 19 leading digits ".." 19 trailing digits; `#` adds the counts;
+         width / fill / alignment / 0 are ignored *)
+      let ty = arg 0 and sp = arg 1 in
+      let v0 = z (arg 3) in
+      let v = if ty = "u" then Zar.abs v0 else v0 in
+      let plus = String.contains sp '+' and alt = String.contains sp '#' in
+      let dpw = fst (Model.radix_info w64 (zi 10)) in
+      let t = tok_of_bytes (Model.debug_spec dpw (Zar.shift_left Zar.one 128) plus alt v) in
+      let asis = res_text (Model.debug_asis w64 Model.gen_dbg_lits (Model.ilog_exact (zi 10)) plus alt v) in
+      let cls = "cls=dbg-" ^ (if Zar.numbits v <= 64 then "word" else if Zar.numbits v <= 128 then "dword" else "large") ^ (if alt then "-alt" else "") in
+      (match got with
+       | [ "ok"; o; p ] when o = t && (p = "na" || p = t) -> pass ~extra:(same (asis = "ok " ^ o) ^ " " ^ cls) ()
+       | [ "ok"; o; _ ] when o = t -> fail ("spec-differs-from-primitive " ^ t)
+       | _ -> fail ("ok " ^ t))
+  | "serde" ->
+      let v0 = z (arg 1) in
+      let v = if arg 0 = "u" then Zar.abs v0 else v0 in
+      (match Model.fmt_spec Model.KDisplay (flags_of "." Zar.zero) v with
+       | Model.Ok l -> expect ~extra:"cls=serde" ("ok " ^ tok_of_bytes ([ zi 34 ] @ l @ [ zi 34 ]) ^ " " ^ hx v) got
+       | _ -> fail "spec-undefined")
+  | "deser" ->
+      let signed = arg 0 = "i" and text = bytes_of_tok (arg 1) in
+      let spec = Model.from_str_prefix_gen Model.body_spec signed (zi 10) text in
+      let asis = Model.from_str_prefix_gen (Model.body_asis w64) signed (zi 10) text in
+      let show = function Model.Ok (v, _) -> "ok " ^ hx v | Model.Err _ -> "err" | _ -> "other" in
+      let g = (match got with "err" :: _ -> "err" | l -> String.concat " " l) in
+      if show spec = g then pass ~extra:(same (show asis = g) ^ " cls=deser-" ^ (match spec with Model.Ok _ -> "valid" | _ -> "error")) () else fail (show spec)
   | "tostr" ->
       let v0 = z (arg 1) in
       let v = if arg 0 = "u" then Zar.abs v0 else v0 in
@@ -93,7 +147,8 @@ let judge op args got =
         else lift (Model.from_str_radix_gen body signed r text) in
       let spec = run Model.body_spec and asis = run (Model.body_asis w64) in
       let gots = String.concat " " got in
-      let fid = same (show asis = gots) in
+      let words_ok = List.length text > words_limit / 3 || show (run (Model.body_words_asis w64)) = gots in
+      let fid = same (show asis = gots && words_ok) in
       let cls = "cls=" ^ (match spec with Model.Ok _ -> "valid" | Model.Err e -> err_name e | _ -> "other") in
       (match spec with
        | Model.Ok _ -> if show spec = gots then pass ~extra:(fid ^ " " ^ cls) () else fail (show spec)
